@@ -478,6 +478,7 @@ type world struct {
 	lastRange  rawdb.FilterMapsRange // last persisted index range (watched through the disk hook)
 	haveRange  bool
 	qobs       map[int]string
+	maxTarget  uint64 // highest target head handed to the indexer since it was last known idle
 	pulledDown map[uint64]bool // blocks that became "first indexed block" by the range being pulled down
 }
 
@@ -843,6 +844,7 @@ var steps = os.Getenv("VERIF_STEPS") != ""
 const crashKey = "crash:indexer-iterates-past-shortened-head"
 
 func (w *world) startFM(view *filtermaps.ChainView) {
+	w.maxTarget = max(w.maxTarget, w.head().number)
 	cfg := filtermaps.Config{History: w.history, Disabled: w.p.Disabled, HashScheme: w.p.HashScheme}
 	fm, err := filtermaps.NewFilterMaps(w.indexKV, view, 0, 0, w.params, cfg)
 	if err != nil {
@@ -1208,6 +1210,7 @@ func (w *world) checkIdle(where string) {
 		return // the indexer does not initialise on a genesis-only chain
 	}
 	w.fm.WaitIdle()
+	w.maxTarget = head
 	if w.fm.VerifDisabled() {
 		// no coverage promise from an indexer that is off; queries are still judged
 		w.noteDisabled(where)
@@ -1321,10 +1324,13 @@ func Run(t *testing.T, pl any) *simcore.Result {
 					// indexer goroutine, taking the process down. With the finding recorded the
 					// harness lets the indexer go idle first; without it the run crashes and is
 					// reported by the driver.
-					if simcore.IsKnown(crashKey) && nh.number < oldHead && int(nh.number) < len(w.canon) && w.canon[nh.number] == nh && !w.p.Disabled && oldHead > 0 {
+					// (conservative: any head below the highest target handed over since the indexer
+					// was last known idle -- it may still be rendering towards that one)
+					if simcore.IsKnown(crashKey) && nh.number < w.maxTarget && !w.p.Disabled && oldHead > 0 {
 						if w.drain() {
 							w.fm.WaitIdle()
 						}
+						w.maxTarget = oldHead
 						w.probe("shortened-head-serialised-to-avoid-known-crash")
 						w.mu.Lock()
 						w.res.KnownHit(crashKey)
@@ -1341,7 +1347,11 @@ func Run(t *testing.T, pl any) *simcore.Result {
 						w.probe("head-moved-backwards")
 					}
 					w.observe(fmt.Sprintf("head -> %d (block %d) fork %d", nh.number, nh.idx, fork))
+					w.maxTarget = max(w.maxTarget, nh.number)
 					w.fm.SetTarget(w.currentView(), 0, 0)
+					// quiescent point: an idle indexer picks the target up now, not in a real-time
+					// race with the next operation of this actor
+					w.sched.Gate("zz:target-set")
 				case "query":
 					if !w.drain() {
 						w.noteDisabled(where)
@@ -1418,7 +1428,7 @@ func Checks() map[string]*simcore.Check {
 			"order in which the matcher's 4 worker goroutines pick up epoch tasks and Go map iteration order inside the matcher",
 			"index reads (ungated) between two gates of the same goroutine",
 		},
-		Runs:       map[string]int{"quick": 1600, "thorough": 60000},
+		Runs:       map[string]int{"quick": 2400, "thorough": 60000},
 		Gen:        Gen, Decode: Decode, Run: Run, Shrink: Shrink,
 		ProbeNames: []string{"queries", "query-nonempty-result", "query-index-behind-head", "query-tail-unindexed", "query-valid-range-trimmed", "query-index-on-stale-fork", "query-unindexed-scan", "query-served-from-index-only", "query-match-all", "reorg", "reorg-depth>=8", "head-moved-backwards", "restart", "idle-tail-unindexed", "idle-tail-reindexed", "idle-tail-partial-epoch", "multi-epoch-index", "row-overflow", "indexer-switched-itself-off"},
 	}}
